@@ -131,9 +131,10 @@ bool OPNMIDIplay::LoadBank(FileAndMemReader &fr)
     {
         for(size_t i = 0; i < slots_counts[ss]; i++)
         {
-            // MIDI bank numbers have 7 bits: a set high bit must not reach the percussion tag or an unreachable key
+            // The MSB has 7 bits: a set high bit must not reach the percussion tag.
+            // (The LSB keeps its 8 bits: 128...255 is the range of the XG SFX kits.)
             size_t bankno = ((slots_src_ins[ss][i].bank_midi_msb & 0x7F) * 256) +
-                            (slots_src_ins[ss][i].bank_midi_lsb & 0x7F) +
+                            (slots_src_ins[ss][i].bank_midi_lsb) +
                             (ss ? size_t(Synth::PercussionTag) : 0);
             Synth::Bank &bank = synth.m_insBanks[bankno];
             for(int j = 0; j < 128; j++)
